@@ -1106,6 +1106,36 @@ def mesh_formats(repo, col):
         okc, undc = False, False
         if len(conds) == 1 and conds[0][1] is True:
             t = expand(conds[0][0], table, depth=4)
+            # bool(<test>) is <test>; calls of expression helpers (also of
+            # other modules) inside the test are replaced by what they return
+            from .dataflow import inline_helper_call
+            from .core import resolve_local_call
+            import copy as _cp
+            for _ in range(3):
+                if isinstance(t, ast.Call) and call_name(t) == "bool" and \
+                        len(t.args) == 1:
+                    t = t.args[0]
+                repl = {}
+                for cc in ast.walk(t):
+                    if isinstance(cc, ast.Call):
+                        h_ = resolve_local_call(a, cc)
+                        if h_ is not None:
+                            e2 = inline_helper_call(cc, h_.node,
+                                                    drop_self=False)
+                            if e2 is not None:
+                                repl[id(cc)] = e2
+                if not repl:
+                    break
+
+                class _R(ast.NodeTransformer):
+                    def visit_Call(self, node):
+                        if id(node) in repl:
+                            return _cp.deepcopy(repl[id(node)])
+                        return self.generic_visit(node)
+                t = _R().visit(t)
+            if isinstance(t, ast.Call) and call_name(t) == "bool" and \
+                    len(t.args) == 1:
+                t = t.args[0]
             det = None
             if isinstance(t, ast.Compare) and len(t.ops) == 1:
                 l, r, op = t.left, t.comparators[0], t.ops[0]
